@@ -192,10 +192,8 @@ def guard(ctx: Any) -> List[Ob]:
     n_cells = 0
     for same, same_src in ((True, True), (True, False), (False, True)):
         for within in (True, False):
-            for prev in (True, False):
-                for prev_qu in (True, False):
-                    if not prev and prev_qu:
-                        continue
+            for prev, prev_qu, prev_query in ((True, False, True), (True, True, True), (True, False, False), (True, True, False), (False, False, True)):
+                if True:
                     if not same_src and src_attr is None:
                         continue
                     last_time = 10_000.0
@@ -208,15 +206,18 @@ def guard(ctx: Any) -> List[Ob]:
                         f'{me}.last_time': last_time,
                         f'{me}.last_message': fd.Sym('message') if prev else None,
                         '.has_qu_question()': prev_qu,
+                        f'{me}.last_message.is_query()': prev_query,
                         '.valid': True,
                         '.is_query()': False,
                         'debug': False,
                     }
                     oc, und = traces(ctx, f, atoms, eff, loop_bound=1)
                     suppressed = {not any(x in ('PARSE', 'RESPONSE', 'QUERY') or str(x).startswith('MEM') for x in strip_ret(t)) for t in oc}
-                    want = same and same_src and within and prev and not prev_qu
+                    # the exemption is for QUERIES with a QU question (two queriers may send the same bytes and each is owed its unicast
+                    # answer); a response that echoes a QU question is a response, and its duplicate is a duplicate
+                    want = same and same_src and within and prev and not (prev_qu and prev_query)
                     n_cells += 1
-                    obs.append(ob(R, f, f'same bytes={same}{"" if same_src else " from another source"} within interval={within} previous message={prev} previous had QU={prev_qu}', f'datagram is {"ignored entirely" if want else "processed"}', suppressed == {want}, f'suppressed on {suppressed}; undecided {und}'))
+                    obs.append(ob(R, f, f'same bytes={same}{"" if same_src else " from another source"} within interval={within} previous message={prev}{"" if not prev else (" (a query)" if prev_query else " (a response)")} previous had QU={prev_qu}', f'datagram is {"ignored entirely" if want else "processed"}', suppressed == {want}, f'suppressed on {suppressed}; undecided {und}' + ('; a duplicated RESPONSE that carries a question with the QU bit is processed twice (listeners are called twice)' if prev_qu and not prev_query and suppressed != {want} else '')))
     # boundary of the interval: exactly at the interval is no longer a duplicate
     for delta, want in ((iv - 0.001, True), (iv, False)):
         atoms = {f'{me}.data': b'abc', p_data: b'abc', p_now: 10_000.0 + delta, f'{me}.last_time': 10_000.0, f'{me}.last_message': fd.Sym('m'), '.has_qu_question()': False, '.valid': True, '.is_query()': False, 'debug': False}
